@@ -160,6 +160,8 @@ class ExactEval(BaseEval):
             raise EvalError("DeriveKeyPair: no valid candidate")
         if tag in ("aeadct", "aeadtag"):
             return self.aead(t)
+        if tag == "x25519pre":                   # ["x25519pre", sk, shape, i]: a peer key whose DH with sk has a chosen SHAPE
+            return prims.x25519_preimage(self.eval(t[1]), x25519_shaped_output(t[2], t[3]))
         if tag == "mkxy":                        # ["mkxy", kem, recipe, i]: adversarial coordinate pairs (C09)
             return make_xy(KEM_CURVE[t[1]], t[2], t[3])
         if tag == "mksk":                        # ["mksk", kem, recipe, i]: scalars around the group order
@@ -270,6 +272,28 @@ import functools
 
 
 @functools.lru_cache(maxsize=None)
+@functools.lru_cache(maxsize=None)
+def x25519_shaped_output(shape, i):
+    """a u-coordinate in a prime-order subgroup (so that it IS a possible X25519 output) whose 32 bytes have a shape a
+    sloppy all-zero test or a truncating encoder trips over; see spec/MC_Kem.tla ShapedDh"""
+    r = _rng("x25519shape", shape, i)
+    for _ in range(400):
+        a, b = r.getrandbits(64), r.getrandbits(63)
+        limbs = {"xorfold": (a, a, 0, 0),            # the four 64-bit words XOR to zero, upper half zero
+                 "abab": (a, b, a, b),               # the words XOR to zero
+                 "lowzero": (0, 0, a, b),            # lower 16 bytes zero
+                 "highzero": (a, b | (1 << 63), 0, 0),   # upper 16 bytes zero
+                 "onebyte": (r.getrandbits(8) | 1, 0, 0, 0),   # a single non-zero byte
+                 "allsame": None}[shape]
+        if limbs is None:
+            v = int.from_bytes(bytes([r.getrandbits(7)]) * 32, "little")
+        else:
+            v = sum(w << (64 * k) for k, w in enumerate(limbs))
+        if 1 < v < prims.X25519_P and prims.x25519_subgroup_order(v) is not None:
+            return v
+    raise EvalError("no X25519 output of shape " + shape)
+
+
 def make_xy(curve, recipe, i):
     """X || Y (fixed width) for the named recipe; see spec/MC_Codec.tla XyRecipes"""
     c = prims.CURVES[curve]
@@ -291,6 +315,10 @@ def make_xy(curve, recipe, i):
         X, Y = 0, 0
     elif recipe == "swapxy":
         X, Y = y, x
+    elif recipe == "xzero":
+        X, Y = 0, prims.nist_lift_x(curve, 0)        # b is a square on P-256, P-384 and P-521
+        if Y is None:
+            raise EvalError("no point with x = 0 on " + curve)
     elif recipe in ("smallx", "leadzero"):
         # a VALID point whose abscissa has leading zero bytes (x < 2^16 resp. x < 2^(8(n-2))): its DH outputs with the
         # scalars 1 and n-1 are that abscissa - shared secrets with leading zeros, the classic truncation trap
